@@ -626,7 +626,9 @@ pub fn run_ops(ops: &[Op], opts: &RunOpts, stats: &mut Stats, hook: &mut dyn Ste
             if panicked {
                 // (an allocator refusal is an environment event: which allocation site meets it first is not a result)
                 let msg: String = if pclass == "oom" { String::new() } else { prec.as_ref().map(|p| p.msg().chars().take(90).collect()).unwrap_or_default() };
-                line.push_str(&format!(" panic:{}[{}]", pclass, msg));
+                // the message is informative only: which internal assertion fires first may differ between builds
+                // although every build panics; comparisons use the line without the «...» part
+                line.push_str(&format!(" panic:{}\u{ab}{}\u{bb}", pclass, msg));
             }
             if env.skipped {
                 line.push_str(" skipped");
